@@ -5,11 +5,19 @@ go 1.20
 require (
 	github.com/btcsuite/btcd v0.0.0-20190523000118-16327141da8c
 	github.com/mosaicnetworks/babble v0.0.0
+	github.com/sirupsen/logrus v1.2.0
 )
 
 require (
-	github.com/sirupsen/logrus v1.2.0 // indirect
+	github.com/AndreasBriese/bbloom v0.0.0-20190306092124-e2d15f34fcf9 // indirect
+	github.com/dgraph-io/badger v1.6.0 // indirect
+	github.com/dgryski/go-farm v0.0.0-20190423205320-6a90982ecee2 // indirect
+	github.com/dustin/go-humanize v1.0.0 // indirect
+	github.com/golang/protobuf v1.3.1 // indirect
+	github.com/pkg/errors v0.9.1 // indirect
+	github.com/ugorji/go/codec v1.1.7 // indirect
 	golang.org/x/crypto v0.0.0-20200128174031-69ecbb4d6d5d // indirect
+	golang.org/x/net v0.0.0-20200226121028-0de0cce0169b // indirect
 	golang.org/x/sys v0.0.0-20191120155948-bd437916bb0e // indirect
 )
 
